@@ -2,7 +2,7 @@
 
 from vf import symx
 from vf.framework import Check
-from checks import classify_fn
+from checks import classify_fn, classify_db
 
 
 class C01(Check):
@@ -28,8 +28,23 @@ class C01(Check):
                                {'N': n, 'props': ('C01',), 'seed': self.seed, 'replay_every': 5},
                                name='match_storms[N=%d]' % n)
             self.absorb(exp, need_paths=2)
-        for f in self.failures:
-            f['N'] = int(f['harness'].split('=')[1].rstrip(']'))
+        # DB level: classify_intervals on symsql from an arbitrary Inv_load state
+        self.run_conformance(patterns=3)
+        G = 4 if self.tier == 'quick' else 5
+        self.db_ctx = {'G': G, 'step_s': 1800, 'props': ('C01',), 'seed': self.seed, 'replay_every': 13}
+        self.bounds['DB level'] = {'grid steps': G, 'validity patterns': 'all (gaps, single-sample stretches, closing-instant-only stretch)',
+                                   'time step': '1800 s'}
+        self.unit('spowtd.classify', *classify_db.UNITS)
+        self.stubs.append('sqlite3 -> vf.symsql (schema parsed from /repo/spowtd/schema.sql, statements from the executed code)')
+        self.assumptions.append('DB level starts from an arbitrary state satisfying Inv_load (constructor compared with the real '
+                                'load on every validity pattern); a dataset without any water level on the grid is outside '
+                                '(classify refuses it explicitly)')
+        exp = symx.explore(classify_db.harness, self.db_ctx, name='classify_intervals[G=%d]' % G)
+        self.absorb(exp, need_paths=2)
 
     def replay(self, failure):
-        return classify_fn.replay_failure(failure['N'], failure)
+        if failure['harness'].startswith('classify_intervals'):
+            G = int(failure['harness'].split('=')[1].rstrip(']'))
+            return classify_db.replay_failure({'G': G, 'step_s': 1800}, failure)
+        N = int(failure['harness'].split('=')[1].rstrip(']'))
+        return classify_fn.replay_failure(N, failure)
